@@ -1086,12 +1086,36 @@ func execRunDoc(secs []sx.S, root *ggql.Root, w *world) (obs sx.S) {
 		}
 		outs = append(outs, sx.L("resp", data, sortSexps(errs), append([]sx.S{}, w.calls...)))
 	}
-	if printed() == before {
+	switch after := printed(); {
+	case after == before:
 		outs = append(outs, sx.L("printed", "same"))
-	} else {
+	case tokensWithin(after, before):
+		// nothing the request did not write: arguments moved or dropped (finding F08a)
 		outs = append(outs, sx.L("printed", "changed"))
+	default:
+		outs = append(outs, sx.L("printed", "rewritten"))
 	}
 	return outs
+}
+
+var printedTokRe = regexp.MustCompile(`[A-Za-z0-9_$.+-]+|"(?:[^"\\]|\\.)*"|[^\s]`)
+
+// tokensWithin: every token of a occurs in b at least as often
+func tokensWithin(a, b string) bool {
+	cnt := map[string]int{}
+	for _, t := range printedTokRe.FindAllString(b, -1) {
+		cnt[t]++
+	}
+	for _, t := range printedTokRe.FindAllString(a, -1) {
+		if t == "," {
+			continue
+		}
+		if cnt[t] == 0 {
+			return false
+		}
+		cnt[t]--
+	}
+	return true
 }
 
 // jsonValue builds the Go value a JSON decoder would hand over for a variable.
